@@ -20,12 +20,12 @@ T = {
   ref="5 C02, 6"),
  "C03": dict(
   technique="metamorphic property-based testing across presentations, schedule seeds and interpreter hash seeds",
-  text="Each drawn job set (incl. branch-count job sets) is learned twice - original presentation and a drawn permutation/renaming/duplication, different schedule seeds - and paired shards repeat the same cases under different PYTHONHASHSEED values (16 seeds; every corpus definition under all of them); outcomes must be of the same kind, over the same events, with equal models and mutually accepting diagrams.",
+  text="Each drawn job set (incl. branch-count job sets) is learned twice - original presentation and a drawn permutation/renaming/duplication, different schedule seeds, two cases in five also through the file routes of pv2puml (one array file per job; one file per event grouped by job id, files interleaved) - and paired shards repeat the same cases under different PYTHONHASHSEED values (16 seeds; every corpus definition under all of them); outcomes must be of the same kind, over the same events, with equal models and mutually accepting diagrams.",
   note="Trusted: reference acceptor; container order is driven through the patched uuid4, hash seeds are sampled (8 values).",
   ref="5 C03"),
  "C04": dict(
   technique="history-based property testing: chunked learning through saved model files vs all-at-once, plus model-file round trip on generated models",
-  text="Generated job sets are split into 2-3 chunks (all split points for small sets); each boundary crosses the real save/load functions behind -om/-im; final diagram and final model must equal the all-at-once ones; generated models with counts >1 must round-trip.",
+  text="Generated job sets are split into 2-3 chunks (all split points for small sets); each boundary crosses the real save/load functions behind -om/-im; final diagram and final model must equal the all-at-once ones; generated models with counts >1 must round-trip; OTel-route histories (otel2puml -om on a first delivery, otel2puml -im <every model> -om on a second, several workflows) are compared with otel2puml on everything.",
   note="Trusted: reference acceptor; model equality compares sets of counted multisets.",
   ref="5 C04"),
  "C05": dict(
